@@ -568,6 +568,11 @@ enum Script {
     RejectedThenIdReuse { n: u16, inflight: bool },
     /// Eight QoS 2 exchanges in the PUBREL phase across a resume, then a ninth.
     EightInRelease { rm8: bool },
+    /// Unacknowledged QoS 1 publishes of different sizes, then packets encoded in the scratch space
+    /// behind them whose fixed header takes 2, 3 or 4 bytes (a QoS 0 PUBLISH of `q0_len` payload
+    /// bytes; the next CONNECT with a long will), then a resumed connection that must replay the
+    /// retained packets byte for byte.
+    ScratchBehindRetained { q0_len: usize, big_will: bool },
 }
 
 fn scripted() -> Vec<Script> {
@@ -591,6 +596,9 @@ fn scripted() -> Vec<Script> {
     }
     v.push(Script::EightInRelease { rm8: true });
     v.push(Script::EightInRelease { rm8: false });
+    for (q0_len, big_will) in [(130, false), (0, true), (200, true), (20000, false), (120, false), (300, false), (17000, true)] {
+        v.push(Script::ScratchBehindRetained { q0_len, big_will });
+    }
     v
 }
 
@@ -626,6 +634,13 @@ fn settle(d: &mut Drv) {
 fn run_script(rng: super::Rng, script: &Script) -> (String, Drv) {
     let mut cfg = CfgSpec::basic(128, 512);
     cfg.exp = 3600;
+    if let Script::ScratchBehindRetained { q0_len, big_will } = script {
+        cfg.tx = if *q0_len > 4000 { 24000 } else { 1024 };
+        if *big_will {
+            // CONNECT of more than 127 bytes: two length bytes in its fixed header
+            cfg.will = Some(format!("77/{}/1/0/-", crate::parse::hex(&[0x57; 120])));
+        }
+    }
     let mut d = Drv::new(&cfg, rng);
     d.split_rx = false;
     let rm = |r: u16| vec![crate::parse::PropSpec::U16(0x21, r)];
@@ -716,6 +731,25 @@ fn run_script(rng: super::Rng, script: &Script) -> (String, Drv) {
             }
             settle(&mut d);
             format!("script=eight-in-release rm8={}", *rm8 as u8)
+        }
+        Script::ScratchBehindRetained { q0_len, big_will } => {
+            d.connect(&ConnSpec::plain());
+            for (i, size) in [3usize, 40, 9].iter().enumerate() {
+                d.x(&PubLine::simple(1 + (i == 1) as u8, "k", &vec![0x41 + i as u8; *size]).text());
+                d.go();
+            }
+            forget_all(&mut d);
+            if *q0_len > 0 {
+                d.x(&PubLine::simple(0, "q", &vec![0x5a; *q0_len]).text());
+                d.go();
+            }
+            lose(&mut d, "drop");
+            d.comment("healthy-connect");
+            d.connect(&ConnSpec { sp: Sp::Fixed(true), rc: 0, props: vec![] });
+            settle(&mut d);
+            d.deliver_all();
+            settle(&mut d);
+            format!("script=scratch-behind-retained q0={q0_len} will={}", *big_will as u8)
         }
     };
     d.finish_benign();
